@@ -27,6 +27,7 @@ type UnifiedMemoryModelRegistry struct {
 	modelEndpointSets *xsync.Map[string, *xsync.Map[string, struct{}]] // ModelID -> Set of endpoint URLs (cached for fast lookup)
 	latestListing     *xsync.Map[string, uint64]                       // URL -> sequence number of the endpoint's latest registration
 	listingSeq        atomic.Uint64
+	registerMu        sync.Mutex // makes "write the endpoint's listing" and "number that write" one step
 	unificationMutex  sync.Mutex
 }
 
@@ -113,21 +114,27 @@ func (r *UnifiedMemoryModelRegistry) RegisterModelsWithEndpoint(ctx context.Cont
 // RegisterModel overrides the base method so that a model added on its own also reaches
 // the unified catalogue (the endpoint's full, updated list is unified again)
 func (r *UnifiedMemoryModelRegistry) RegisterModel(ctx context.Context, endpointURL string, model *domain.ModelInfo) error {
+	// the sequence number has to order the listings exactly as the base registry received them,
+	// otherwise two overlapping registrations leave the catalogue built from the older one
+	r.registerMu.Lock()
 	if err := r.MemoryModelRegistry.RegisterModel(ctx, endpointURL, model); err != nil {
+		r.registerMu.Unlock()
 		return err
 	}
 
 	models, err := r.MemoryModelRegistry.GetModelsForEndpoint(ctx, endpointURL)
 	if err != nil {
+		r.registerMu.Unlock()
 		return err
 	}
+	seq := r.listingSeq.Add(1)
+	r.latestListing.Store(endpointURL, seq)
+	r.registerMu.Unlock()
 
 	if model != nil {
 		r.modelEndpointSets.Delete(model.Name)
 	}
 
-	seq := r.listingSeq.Add(1)
-	r.latestListing.Store(endpointURL, seq)
 	go r.unifyModelsAsync(ctx, endpointURL, models, seq)
 
 	return nil
@@ -135,10 +142,16 @@ func (r *UnifiedMemoryModelRegistry) RegisterModel(ctx context.Context, endpoint
 
 // RegisterModels overrides the base method to add unification
 func (r *UnifiedMemoryModelRegistry) RegisterModels(ctx context.Context, endpointURL string, models []*domain.ModelInfo) error {
-	// First, register models normally
+	// First, register models normally. The sequence number is taken in the same step, so that it
+	// orders overlapping registrations of one endpoint exactly as the base registry received them.
+	r.registerMu.Lock()
 	if err := r.MemoryModelRegistry.RegisterModels(ctx, endpointURL, models); err != nil {
+		r.registerMu.Unlock()
 		return err
 	}
+	seq := r.listingSeq.Add(1)
+	r.latestListing.Store(endpointURL, seq)
+	r.registerMu.Unlock()
 
 	// Invalidate any cached endpoint sets for these models since they're being updated
 	for _, model := range models {
@@ -149,8 +162,6 @@ func (r *UnifiedMemoryModelRegistry) RegisterModels(ctx context.Context, endpoin
 
 	// Then unify them. Unification runs in the background and several rounds for one endpoint
 	// may be in flight: only the latest listing of an endpoint may shape the catalogue.
-	seq := r.listingSeq.Add(1)
-	r.latestListing.Store(endpointURL, seq)
 	go r.unifyModelsAsync(ctx, endpointURL, models, seq)
 
 	return nil
@@ -345,17 +356,25 @@ func (r *UnifiedMemoryModelRegistry) GetUnifiedStats(ctx context.Context) (Unifi
 
 // RemoveEndpoint overrides to clean up unified models
 func (r *UnifiedMemoryModelRegistry) RemoveEndpoint(ctx context.Context, endpointURL string) error {
-	// First remove from base registry
+	// First remove from base registry; the removal is numbered like a listing so that
+	// unification rounds still in flight for this endpoint are superseded
+	r.registerMu.Lock()
 	if err := r.MemoryModelRegistry.RemoveEndpoint(ctx, endpointURL); err != nil {
+		r.registerMu.Unlock()
 		return err
 	}
+	seq := r.listingSeq.Add(1)
+	r.latestListing.Store(endpointURL, seq)
+	r.registerMu.Unlock()
 
 	// Clean up unified models
 	r.unificationMutex.Lock()
 	defer r.unificationMutex.Unlock()
 
-	// supersede unification rounds still in flight for this endpoint
-	r.latestListing.Store(endpointURL, r.listingSeq.Add(1))
+	// a registration that arrived after the removal has the say now
+	if latest, ok := r.latestListing.Load(endpointURL); ok && latest != seq {
+		return nil
+	}
 
 	r.removeEndpointFromUnifiedLocked(endpointURL)
 
